@@ -63,6 +63,8 @@ PAGE_GARBAGE = [
     # (a valid margin box whose only declaration is invalid stays as an empty box: that is containment, so only the box itself is damaged here)
     ('@top-left {m} ! {{content:"x"}}', 'bad-margin-box-prelude'), ('@top-right {m}( {{content:"x"}} ) {{y:1}}', 'bad-margin-box-prelude'),
     ('{m} {{ @bottom-center {{ content: "{m}" }} }}', 'margin-box-inside-garbage-block'),
+    ('{m} {{ a: calc(1px + 1px) f(g(2)) ; @bottom-center {{ content: "{m}" }} }}', 'margin-box-inside-garbage-block'),
+    ('{m}: rgb(1, 2 {{ @top-center {{ content: "{m}" }} }} )', 'margin-box-inside-garbage-block'),
 ]  # fmt: skip
 AT_GARBAGE = [
     ('@{m};', 'unknown'), ('@{m} a b;', 'unknown'), ('@{m} {{a{{b:c}}}}', 'unknown-block'), ('@{m} a(b;c) [d] {{e}}', 'unknown-nesting'),
@@ -172,7 +174,7 @@ def inject(rng, stmts, marker):
         if st[0] == 'page' and rng.random() < 0.5:
             tmpl, tag = rng.choice(PAGE_GARBAGE)
         elif where.endswith('margin-box') and rng.random() < 0.3:
-            tmpl, tag = PAGE_GARBAGE[-1]
+            tmpl, tag = rng.choice([x for x in PAGE_GARBAGE if x[1] == 'margin-box-inside-garbage-block'])
         items = list(st[idx])
         pos = rng.randint(0, len(items))
         follows = items[pos][0] if pos < len(items) else 'end'
